@@ -652,3 +652,142 @@ func RunProfilingBinaryCase(seed int64, bin, workDir string) *HistResult {
 	}
 	return res
 }
+
+// RunSecretSourceBinaryCase (C14; seed C14-n): "signed with the configured secret", as the BINARY is configured. The secret
+// given on the command line (or through PRUNNER_JWT_SECRET) is the configured one even if a config file from an earlier run
+// holds another, valid secret; without one the secret of the config file is; without a file one is generated and written.
+// In every configuration a token signed with any OTHER secret - in particular with the one that is NOT in force - is
+// refused on every route, by header and by cookie, and schedules nothing.
+func RunSecretSourceBinaryCase(seed int64, bin, workDir string) *HistResult {
+	res := &HistResult{Seed: seed, Situations: map[string]map[string]struct{}{}, Evaluations: map[string]int{}}
+	find := func(sig, format string, args ...any) {
+		res.Findings = append(res.Findings, Finding{Props: []string{"C14"}, Sig: sig, Detail: fmt.Sprintf(format, args...), Step: -1})
+	}
+	const fileSecret, cliSecret = "secret-from-the-config-file-0001", "secret-given-at-start-up-000002"
+	type cfg struct {
+		name     string
+		file     bool
+		args     []string
+		env      []string
+		inForce  string // "" = read the generated secret from the file the binary writes
+		stranger []string
+	}
+	cfgs := []cfg{
+		{"config file with a secret + --jwt-secret", true, []string{"--jwt-secret", cliSecret}, nil, cliSecret, []string{fileSecret}},
+		{"config file with a secret + PRUNNER_JWT_SECRET", true, nil, []string{"PRUNNER_JWT_SECRET=" + cliSecret}, cliSecret, []string{fileSecret}},
+		{"config file with a secret only", true, nil, nil, fileSecret, []string{cliSecret}},
+		{"no config file, no secret given", false, nil, nil, "", []string{fileSecret, cliSecret}},
+	}
+	c := cfgs[int(seed)%len(cfgs)]
+	dir, err := os.MkdirTemp(workDir, "secret-")
+	if err != nil {
+		res.Inconclusive = err.Error()
+		return res
+	}
+	defer os.RemoveAll(dir)
+	_ = os.WriteFile(filepath.Join(dir, "pipelines.yml"), []byte("pipelines:\n  p:\n    tasks:\n      t:\n        script: [\"true\"]\n"), 0o644)
+	cfgFile := filepath.Join(dir, "cfg.yml")
+	if c.file {
+		_ = os.WriteFile(cfgFile, []byte("jwt_secret: "+fileSecret+"\n"), 0o600)
+	}
+	l, err := net.Listen("tcp", "127.0.0.1:0")
+	if err != nil {
+		res.Inconclusive = "no loopback listener: " + err.Error()
+		return res
+	}
+	addr := l.Addr().String()
+	l.Close()
+	args := append([]string{"--path", dir, "--data", filepath.Join(dir, "data"), "--address", addr, "--env-files", "", "--config", cfgFile}, c.args...)
+	cmd := exec.Command(bin, args...)
+	cmd.Dir = dir
+	var env []string
+	for _, e := range os.Environ() {
+		if !strings.HasPrefix(e, "PRUNNER_") {
+			env = append(env, e)
+		}
+	}
+	cmd.Env = append(env, c.env...)
+	logf, _ := os.Create(filepath.Join(dir, "prunner.log"))
+	cmd.Stdout, cmd.Stderr = logf, logf
+	if err := cmd.Start(); err != nil {
+		res.Inconclusive = "cannot start the prunner binary: " + err.Error()
+		return res
+	}
+	defer func() { _ = cmd.Process.Kill(); _, _ = cmd.Process.Wait() }()
+	do := func(method, path, secret string, cookie bool, body string) (int, string) {
+		var rd io.Reader
+		if body != "" {
+			rd = strings.NewReader(body)
+		}
+		req, _ := http.NewRequest(method, "http://"+addr+path, rd)
+		if secret != "" {
+			if cookie {
+				req.AddCookie(&http.Cookie{Name: "jwt", Value: signHS256(secret)})
+			} else {
+				req.Header.Set("Authorization", "Bearer "+signHS256(secret))
+			}
+		}
+		resp, err := http.DefaultClient.Do(req)
+		if err != nil {
+			return 0, ""
+		}
+		defer resp.Body.Close()
+		b, _ := io.ReadAll(resp.Body)
+		return resp.StatusCode, string(b)
+	}
+	up := false
+	for i := 0; i < 400; i++ {
+		if code, _ := do("GET", "/pipelines/", "", false, ""); code != 0 {
+			up = true
+			break
+		}
+		time.Sleep(10 * time.Millisecond)
+	}
+	if !up {
+		b, _ := os.ReadFile(filepath.Join(dir, "prunner.log"))
+		res.Inconclusive = fmt.Sprintf("the prunner binary did not come up with %s: %s", c.name, truncate(string(b), 300))
+		return res
+	}
+	inForce := c.inForce
+	if inForce == "" {
+		b, _ := os.ReadFile(cfgFile)
+		var y struct {
+			JWTSecret string `yaml:"jwt_secret"`
+		}
+		for _, line := range strings.Split(string(b), "\n") {
+			if strings.HasPrefix(line, "jwt_secret:") {
+				y.JWTSecret = strings.Trim(strings.TrimSpace(strings.TrimPrefix(line, "jwt_secret:")), "\"'")
+			}
+		}
+		inForce = y.JWTSecret
+		if len(inForce) < 16 {
+			res.Inconclusive = "no generated secret found in the config file the binary wrote"
+			return res
+		}
+	}
+	res.sit("C14", "binary started with "+c.name)
+	// positive control: the secret in force opens the API
+	if code, _ := do("GET", "/pipelines/", inForce, false, ""); code != 200 {
+		find("C14:token-signed-with-the-configured-secret-refused", "binary started with %s: a token signed with the secret that is in force answers %d on GET /pipelines/", c.name, code)
+	}
+	jobsBefore := ""
+	if code, body := do("GET", "/pipelines/jobs", inForce, false, ""); code == 200 {
+		jobsBefore = body
+	}
+	routes := [][3]string{{"GET", "/pipelines/", ""}, {"GET", "/pipelines/jobs", ""}, {"POST", "/pipelines/schedule", `{"pipeline":"p"}`}, {"GET", "/job/detail?id=00000000-0000-0000-0000-000000000000", ""}, {"GET", "/job/logs?id=00000000-0000-0000-0000-000000000000&task=t", ""}, {"POST", "/job/cancel?id=00000000-0000-0000-0000-000000000000", ""}}
+	for _, s := range c.stranger {
+		for _, rt := range routes {
+			for _, cookie := range []bool{false, true} {
+				code, body := do(rt[0], rt[1], s, cookie, rt[2])
+				res.Evaluations["C14"]++
+				if code != 401 {
+					find("C14:request-without-valid-token-not-401", "binary started with %s: %s %s with a token signed with a secret that is NOT the configured one (cookie=%v) answered %d %s", c.name, rt[0], rt[1], cookie, code, truncate(body, 120))
+				}
+			}
+		}
+	}
+	if code, body := do("GET", "/pipelines/jobs", inForce, false, ""); code == 200 && jobsBefore != "" && body != jobsBefore {
+		find("C14:rejected-request-had-an-effect", "binary started with %s: the job list changed while only requests with foreign tokens were sent", c.name)
+	}
+	return res
+}
